@@ -648,6 +648,28 @@ class K{base}:
         return sorted(this.tags.items())
 OPS = [("new", (), {{}}), ("callkw", "update", {{"self": 1, "b": 2}}), ("callkw", "put", {{"self": 3}}), ("callkw", "update", {{"a": 0}})]
 ''',
+    "diamond-whose-sibling-adds-a-constructor": '''
+class Root{base}:
+    def __init__(self):
+        self.x = 1
+    def who(self):
+        return "root"
+{deco2}
+class Left(Root):
+    """Invariants, no constructor of its own (it holds a wrapped copy of Root's)."""
+    def left(self):
+        return self.x
+class Right(Root):
+    def __init__(self, y=0):
+        super().__init__()
+        self.y = y
+    def who(self):
+        return "right"
+{deco}
+class K(Left, Right):
+    pass
+OPS = [("new", (5,), {{}}), ("getattr", "y"), ("call", "who"), ("call", "left"), ("new", (), {{"y": 6}}), ("getattr", "y"), ("getattr", "x"), ("mro",)]
+''',
     "singleton-new": '''
 {deco}
 class K{base}:
